@@ -77,6 +77,7 @@ type Exec struct {
 	ufDecl   map[string]bool
 	globals  map[string]bool
 	ghost    map[string]Val // ghost parameters of the contract
+	ghostReached map[string]Term // bind name -> path condition under which its point was passed
 	callSeq  int
 	inSpec   int
 	inQuant  int
